@@ -743,8 +743,13 @@ def model_type_reserved(repo: pathlib.Path, target: str) -> bool:
     dictionary of structure names and appends an error."""
     mod = _parse(repo, f"aas_core_codegen/{target}/lib/_generate_types.py")
     fn = _func(mod, "_verify_structure_name_collisions")
+    nodes = [
+        n for n, _, _, _ in _sequence(
+            _top_functions(mod), fn, {"symbol_table": "symbol_table"}, MAX_HELPER_DEPTH, ("_verify_intra_structure_collisions",), (fn.name,)
+        )
+    ]
     var: Optional[str] = None
-    for node in ast.walk(fn):
+    for node in nodes:
         if isinstance(node, ast.Assign) and len(node.targets) == 1 and isinstance(node.targets[0], ast.Name):
             call = node.value
             if (
@@ -761,7 +766,7 @@ def model_type_reserved(repo: pathlib.Path, target: str) -> bool:
         return False
     # <dict>.get(var, None) assigned to `other`; `if other is not None: errors.append(...)`
     looked: Optional[str] = None
-    for node in ast.walk(fn):
+    for node in nodes:
         if isinstance(node, ast.Assign) and len(node.targets) == 1 and isinstance(node.targets[0], ast.Name):
             call = node.value
             if (
@@ -775,11 +780,12 @@ def model_type_reserved(repo: pathlib.Path, target: str) -> bool:
                 looked = node.targets[0].id
     if looked is None:
         return False
-    for node in ast.walk(fn):
+    for node in nodes:
         if isinstance(node, ast.If) and any(isinstance(n, ast.Name) and n.id == looked for n in ast.walk(node.test)):
             if any(
                 isinstance(n, ast.Call) and isinstance(n.func, ast.Attribute) and n.func.attr == "append"
-                and isinstance(n.func.value, ast.Name) and n.func.value.id == "errors"
+                and isinstance(n.func.value, ast.Name) and isinstance(n.args[0] if n.args else None, ast.Call)
+                and _callee_name(n.args[0].func) == "Error"
                 for b in node.body for n in ast.walk(b)
             ):
                 return True
@@ -792,8 +798,10 @@ def model_type_literals_reserved(repo: pathlib.Path) -> bool:
     for a name that is there and registers it otherwise."""
     mod = _parse(repo, "aas_core_codegen/golang/lib/_generate_types.py")
     fn = _func(mod, "_verify_structure_name_collisions")
-    for node in ast.walk(fn):
-        if not (isinstance(node, ast.For) and isinstance(node.target, ast.Name) and _symbol_table_colls(node.iter) == ["concrete_classes"]):
+    for node, _owner, aliases, _chain in _sequence(
+        _top_functions(mod), fn, {"symbol_table": "symbol_table"}, MAX_HELPER_DEPTH, ("_verify_intra_structure_collisions",), (fn.name,)
+    ):
+        if not (isinstance(node, ast.For) and isinstance(node.target, ast.Name) and _colls_of(node.iter, aliases) == ["concrete_classes"]):
             continue
         var = node.target.id
         named = any(
@@ -804,7 +812,7 @@ def model_type_literals_reserved(repo: pathlib.Path) -> bool:
         )
         appends = any(
             isinstance(n, ast.Call) and isinstance(n.func, ast.Attribute) and n.func.attr == "append"
-            and isinstance(n.func.value, ast.Name) and n.func.value.id == "errors"
+            and isinstance(n.func.value, ast.Name) and n.args and isinstance(n.args[0], ast.Call) and _callee_name(n.args[0].func) == "Error"
             for n in ast.walk(node)
         )
         registers = any(
